@@ -515,7 +515,7 @@ fn segmut_strategy() -> impl Strategy<Value = SegMut> {
     40 => Just(SegMut::None),
     3 => Just(SegMut::NonCanonicalTail),
     1 => Just(SegMut::Padding),
-    1 => (any::<u8>(), prop::sample::select(vec![b'=', b'+', b'/', b' ', b'.', b'~', b'"', b'\\', 0u8, 0xc3, 0xff, b'A'])).prop_map(|(a, c)| SegMut::Foreign(a, c)),
+    1 => (any::<u8>(), prop::sample::select(vec![b'=', b'+', b'/', b' ', b'\n', b'\r', b'\t', b'.', b'~', b'"', b'\\', 0u8, 0xc3, 0xff, b'A'])).prop_map(|(a, c)| SegMut::Foreign(a, c)),
     1 => Just(SegMut::StandardAlphabet),
     1 => Just(SegMut::DropLast),
   ]
